@@ -88,12 +88,12 @@ type NCRec struct {
 	resp       *response.NetconfResponse
 	InputAtEnd string
 	RawAtEnd   string
-	Raw         string
-	Panicked    bool
-	Skipped     bool
-	ReqIndex    int // index of the request at the server (-1 if none)
-	Delivered   int
-	LastByteAt  time.Duration
+	Raw        string
+	Panicked   bool
+	Skipped    bool
+	ReqIndex   int // index of the request at the server (-1 if none)
+	Delivered  int
+	LastByteAt time.Duration
 }
 
 // NCRun is everything a NETCONF session run produced.
